@@ -478,6 +478,8 @@ def wrap(x, signed, n_word):
 
 def scale_raw(x, n_shift):
     # raw (integer) value(s) scaled by 2**n_shift; python integers are used if the result does not fit in a signed 64 bits integer
+    if isinstance(x, int) and not -2**63 <= x < 2**63:
+        x = np.array(x, dtype=object)   # (numpy would make it a uint64, which is taken for a wrapped negative code later, or a double)
     x = np.asarray(x)
     if n_shift > 0 and x.dtype.kind in 'iu' and x.size > 0:
         if max(abs(int(np.max(x))), abs(int(np.min(x)))).bit_length() + n_shift >= 63:
